@@ -114,8 +114,8 @@ pub fn c11() -> Simple {
         id: "C11",
         decided_by: "inputs (handshake responses) x configurations (TLS offered, accept/reject) x arrival schedule (commands pipelined behind the handshake)",
         rule_text: "one run = greeting + a handshake response in the 4.1 layout (random 32-bit capability masks with PROTOCOL_41, user names of 0..300 arbitrary non-NUL bytes, arbitrary trailing auth/db/plugin bytes) or the 3.20 layout, shim offering TLS or not, accepting or rejecting with a typed token, 0..5 commands released together with the handshake or after it; also CLIENT_SSL requested without TLS on offer. Oracle: first packet has id 0, protocol 10, NUL-terminated version, 8+1 scramble bytes, PROTOCOL_41 advertised, CLIENT_SSL advertised <=> TLS offered; after_authentication exactly once, before any other callback, with the user bytes as sent; reject => ERR 1045/28000, run_on returns that token, no command callback; accept => OK with the next sequence id. Distinct = plan signature.",
-        quick: 1_500_000,
-        thorough: 20_000_000,
+        quick: 900_000,
+        thorough: 15_000_000,
         budget_q: 60,
         budget_t: 600,
         owns: &[
